@@ -1,3 +1,3 @@
 From Coq Require Import Arith List Extraction ExtrOcamlBasic.
 From CMI Require Import Cxx.C07_Defs.
-Extraction "c07_model.ml" make_graph make_slots wf_check task_ok indeg_list step init exec lock_dep unlock_dep self_neighbour idle mu locks touches tk.
+Extraction "c07_model.ml" make_graph make_slots wf_check task_ok indeg_list step init exec lock_dep unlock_dep self_neighbour idle mu locks touches tk phases_ordered_find phases_ordered_check.
